@@ -63,10 +63,12 @@ theorem source_noncanonical_spelling_sign (c : Cfg) (h : c.admissible = true) (h
   cases g1
   exact ⟨canon, swaps, h1, g2, g3, g4⟩
 
-/-- spellings with a letter that is no generator of the algebra: the python returns the out-of-space marker, never raises -/
+/-- spellings with a letter that is no generator of the algebra: the python returns the spelling itself (which is no key of
+    `canon2bin`: callers then read 0 / raise KeyError) with 0 swaps, and never raises.  Before fix 77ca12f it returned the made-up
+    name `'e' + str(2**d)`, which IS a blade name e.g. for `start_index = 2**d` or in `Algebra(8)` (`e256`). -/
 theorem source_foreign_spelling (c : Cfg) (h : c.admissible = true) (h14 : ∀ v ∈ c.vecs, v < 14)
     (sp : List Nat) (hsp : ∀ l ∈ sp, l < 14) (hnone : c.blade2canon sp = none) :
-    Src.blade2canon (algOf c) (pyName sp) = .ok ('e' :: Py.strOfInt (Int.ofNat (2 ^ c.d)), 0) := by
+    Src.blade2canon (algOf c) (pyName sp) = .ok (pyName sp, 0) := by
   rw [blade2canon_eq c (Cfg.adm_of_admissible c h) h14 sp hsp, hnone]
 
 /-- **the configuration itself, from the source**: the naming statement of `Algebra.__post_init__` builds, for a default
